@@ -473,18 +473,24 @@ fn chi2_threshold(df: usize) -> f64 {
     }
 }
 
+/// (k, N) configurations: padded batches and *full* batches (k = N: no padding, the shuffle alone).
+fn c15_configs(ctx: &Ctx) -> Vec<(usize, usize)> {
+    ctx.tier.pick(vec![(1usize, 3usize), (2, 3), (3, 3)], vec![(1, 3), (2, 4), (1, 2), (3, 4), (2, 3), (3, 3), (2, 2), (4, 4)])
+}
+
 pub fn run_c15(ctx: &Ctx) {
-    let r_commits = ctx.tier.pick(192usize, 6_000);
+    let r_commits = ctx.tier.pick(288usize, 8_000);
     ctx.set_rule(&format!(
         "{} commits of PrivateBatchProver over pass-through leaves, each on a freshly built prover, cycling the configurations (k,N) in {:?}, plus public-batch commits (k<M); the committed partial witness is read through a cfg-gated read-only accessor. \
-         Oracle: multiset of committed slot public inputs == the k supplied proofs + (N-k) copies of the validated template; all 4N preimage limbs form pairwise distinct preimages within and across all commits of the run; public batch: supplied inners in the given order followed by templates; \
-         uniformity: chi-square of the observed slot arrangement of the real proofs against uniform (N!/(N-k)! cells) with rejection threshold p < 1e-9, and every arrangement occurs. Non-trivial: commit with 1 <= k < N (padding and shuffle both active); distinct by its arrangement and preimages.",
-        r_commits, ctx.tier.pick(vec![(1usize, 3usize), (2, 3)], vec![(1, 3), (2, 4), (1, 2), (3, 4), (2, 3)])));
+         Oracle: multiset of committed slot public inputs == the k supplied proofs + (N-k) copies of the validated template; all 4N preimage limbs form pairwise distinct preimages within and across all commits of the run, no two preimages of one commit are within 2^16 of each other in any limb, and no limb value recurs in the run (independent fresh draws); public batch: supplied inners in the given order followed by templates; \
+         uniformity: chi-square of the observed slot arrangement of the real proofs against uniform (N!/(N-k)! cells) with rejection threshold p < 1e-9, and every arrangement occurs. Non-trivial: commit with N >= 2 (shuffle active; padding too when k < N); distinct by its arrangement and preimages.",
+        r_commits, c15_configs(ctx)));
     ctx.assume("the randomness under test is the repo's thread_rng: this check is statistical and not seed-reproducible by nature; the false-alarm rate of the uniformity test is <= 1e-9 per configuration by construction; bias below the test's power at this sample size is invisible");
     let workers = ctx.n_workers();
-    let configs: Vec<(usize, usize)> = ctx.tier.pick(vec![(1usize, 3usize), (2, 3)], vec![(1, 3), (2, 4), (1, 2), (3, 4), (2, 3)]);
+    let configs: Vec<(usize, usize)> = c15_configs(ctx);
     let arrangements: std::sync::Mutex<BTreeMap<(usize, usize), BTreeMap<Vec<usize>, u64>>> = Default::default();
     let all_preimages: std::sync::Mutex<HashSet<D4>> = Default::default();
+    let all_limbs: std::sync::Mutex<HashSet<u64>> = Default::default();
     let dup_preimage = std::sync::atomic::AtomicU64::new(0);
     ctx.par(workers, |wi, t| {
         let mut rng = Rng::fork(ctx.seed, wi as u64);
@@ -560,6 +566,30 @@ pub fn run_c15(ctx: &Ctx) {
                 }
                 if p.iter().filter(|x| **x == 0).count() >= 2 {
                     t.violation("C15:preimage-degenerate", format!("preimage {:?} is not a fresh random digest", p), case.clone());
+                }
+            }
+            // independence: two preimages of one commit never share a limb or sit within 2^16 of each other
+            // in any limb position (chance < 2^-47 per pair and limb for independent uniform limbs), and no
+            // limb value recurs anywhere in the run (chance ~ 1e-9 over the whole run)
+            for (i, p) in pre.iter().enumerate() {
+                for q in pre.iter().skip(i + 1) {
+                    for j in 0..4 {
+                        let d = if p[j] >= q[j] { p[j] - q[j] } else { q[j] - p[j] };
+                        let d = d.min(crate::refm::P.saturating_sub(d));
+                        if d < (1 << 16) {
+                            t.violation("C15:preimages-correlated", format!("preimages {:?} and {:?} of one commit differ by {} in limb {}: not independent draws", p, q, d, j), case.clone());
+                        }
+                    }
+                }
+            }
+            {
+                let mut g = all_limbs.lock().unwrap();
+                for p in &pre {
+                    for l in p {
+                        if !g.insert(*l) {
+                            t.violation("C15:preimage-limb-recurs", format!("limb value {} occurs in two dummy-nullifier preimages of this run", l), case.clone());
+                        }
+                    }
                 }
             }
             {
